@@ -117,4 +117,28 @@ mod verif_kani_bq_codec {
         core::mem::forget(r);
         kani::cover!(true);
     }
+    /// the constants the Verus unit bq_pack restates (64-bit words of 8 bytes); loop-free: a complete proof
+    #[kani::proof]
+    fn bq_word_constants() {
+        assert!(QUANTIZED_WORD_BITS == 64);
+        assert!(QUANTIZED_WORD_BYTES == 8);
+        assert!(core::mem::size_of::<QuantizedWord>() == 8 && QuantizedWord::BITS == 64);
+        kani::cover!(true);
+    }
+
+    /// one step of the real iterator inside a word (no refill): for EVERY word and every position the value produced is exactly
+    /// +1.0 for a set low bit and -1.0 otherwise (the float arithmetic `bit as f32 * 2.0 - 1.0` the Verus unit bq_pack abstracts
+    /// as pm_one_); loop-free over the full u64 domain: a complete proof
+    #[kani::proof]
+    fn bq_iterator_step_value() {
+        let e: u64 = kani::any();
+        let it: usize = kani::any();
+        kani::assume(it < 64);
+        let empty: [u8; 0] = [];
+        let mut i = BinaryQuantizedIterator { current_element: e, current_iteration: it, iter: empty.chunks_exact(QUANTIZED_WORD_BYTES) };
+        let got = i.next();
+        assert!(got == Some(if e & 1 == 1 { 1.0f32 } else { -1.0f32 }));
+        assert!(i.current_element == e >> 1 && i.current_iteration == it + 1);
+        kani::cover!(true);
+    }
 }
